@@ -156,7 +156,7 @@ func suiteC20(c *ctx) {
 		case k == 15:
 			// a signal interrupts the module while it waits for the reply (before any byte, or between
 			// header and body); afterwards the server answers, stays silent or closes
-			switch r.Intn(4) {
+			switch r.Intn(5) {
 			case 0:
 				script = fmt.Sprintf("R%d;S30;I;W%x;C", rl, rep)
 			case 1:
@@ -167,8 +167,12 @@ func suiteC20(c *ctx) {
 				} else {
 					script = fmt.Sprintf("R%d;S30;I;S30;I;C", rl)
 				}
-			default:
+			case 3:
 				script = fmt.Sprintf("R%d;S30;I;X", rl)
+			default:
+				// signals keep arriving (every 150 ms for 6 s) while the server stays silent: the time limit
+				// must hold all the same — the module may not restart its full timeout at every signal
+				script = fmt.Sprintf("R%d;S30;P6000;C", rl)
 			}
 		case k == 13: // delay inside the timeout before the reply
 			script = fmt.Sprintf("R%d;S%d;W%x;C", rl, 100+r.Intn(300), rep)
